@@ -17,8 +17,8 @@ PROPERTY = 'C07'
 LEVEL = 'model_checking'
 
 CLASSES = ['a', 'A', 'b']
-NAMES = ['', 'n', 'N', 'm', 'a']     # 'a' is also a classname: a name and a class may coincide
-QUERIES = ['n', 'N', 'n*', 'm', 'a', 'A', 'b', '', '*', 'worldspawn', 'info_null']
+NAMES = ['', 'n', 'N', 'm', 'a', 'Stra\u00dfe']     # 'a' is also a classname: a name and a class may coincide
+QUERIES = ['n', 'N', 'n*', 'm', 'a', 'A', 'b', '', '*', 'worldspawn', 'info_null', 'strasse', 'STRASSE', 'stra*']
 MAXH = 3
 
 
@@ -58,6 +58,9 @@ def apply(st: State, op: list) -> None:
         elif kind == 'adds':
             e = st.h[op[1]]
             e.map.add_ents([e])
+        elif kind == 'adds_gen':
+            e = st.h[op[1]]
+            e.map.add_ents(x for x in [e])      # any iterable is accepted, also a one-shot one
         elif kind == 'remove':
             e = st.h[op[1]]
             e.map.remove_ent(e)
@@ -197,6 +200,7 @@ class Model(bfs.Model):
             if not present:
                 ops.append(['add', i])
                 ops.append(['adds', i])
+                ops.append(['adds_gen', i])
             ops.append(['remove', i])
             if present:
                 ops.append(['eremove', i])
@@ -303,7 +307,7 @@ class Model(bfs.Model):
                     break
             # --- by_target
             snapshot = {k: set(v) for k, v in list(vmf.by_target.items())}
-            keys = set(snapshot) | {fold_name(e) for e in scan} | {None, 'n', 'm'}
+            keys = set(snapshot) | {fold_name(e) for e in scan} | {None, 'n', 'm', 'strasse'}
             for k in sorted(keys, key=repr):
                 got = snapshot.get(k, set())
                 kf = (k.casefold() or None) if isinstance(k, str) else None
